@@ -20,19 +20,91 @@ def load_mutants(prop=None):
     return [m for m in ms if m.get('status') != 'equivalent']
 
 
+def apply_unified_diff(tree, diff_text):
+    """{path: new text} for a `git diff` patch applied to the tree's current texts (in memory);
+    None if a hunk does not apply."""
+    import re
+    files = {}
+    cur = None
+    hunks = []
+    for line in diff_text.splitlines():
+        if line.startswith('diff --git'):
+            cur = None
+        elif line.startswith('+++ '):
+            path = line[4:].strip()
+            cur = path[2:] if path.startswith('b/') else path
+            files[cur] = []
+        elif line.startswith('@@') and cur is not None:
+            mm = re.match(r'@@ -(\d+)(?:,(\d+))? \+(\d+)(?:,(\d+))? @@', line)
+            files[cur].append({'start': int(mm.group(1)), 'lines': []})
+        elif cur is not None and files[cur] and (line[:1] in ' +-' or line == ''):
+            files[cur][-1]['lines'].append(line if line else ' ')
+    out = {}
+    for path, hs in files.items():
+        if path == '/dev/null':
+            continue
+        try:
+            src = tree.text(path).split('\n')
+        except AnalysisError:
+            src = []
+        res = []
+        pos = 0
+        for h in hs:
+            old = [l[1:] for l in h['lines'] if l[:1] in ' -']
+            new = [l[1:] for l in h['lines'] if l[:1] in ' +']
+            # locate the old block near its stated position
+            want = h['start'] - 1
+            found = None
+            for delta in sorted(range(-60, 61), key=abs):
+                i = want + delta
+                if i >= pos and src[i:i + len(old)] == old:
+                    found = i
+                    break
+            if found is None:
+                return None
+            res += src[pos:found] + new
+            pos = found + len(old)
+        res += src[pos:]
+        out[path] = '\n'.join(res)
+    return out
+
+
+def seeded(prop=None):
+    base = os.path.join(os.path.dirname(HERE), 'seeded')
+    out = []
+    if not os.path.isdir(base):
+        return out
+    for d in sorted(os.listdir(base)):
+        mp = os.path.join(base, d, 'meta.json')
+        pp = os.path.join(base, d, 'patch.diff')
+        if os.path.exists(mp) and os.path.exists(pp):
+            with open(mp) as fh:
+                meta = json.load(fh)
+            if prop is None or meta.get('property') == prop:
+                out.append({'id': 'seed:' + d, 'patch': pp, 'props': [meta.get('property')]})
+    return out
+
+
 def _one(args):
     prop, m, base_keys = args
     from .check import load_prop
     from .model import Model
     from .report import run_rules
     tree = SourceTree()
-    try:
-        txt = tree.text(m['file'])
-    except AnalysisError:
-        return (m['id'], 'skipped', 'file missing')
-    if txt.count(m['old']) < 1:
-        return (m['id'], 'skipped', 'anchor text not present')
-    ov = tree.with_overlay({m['file']: txt.replace(m['old'], m['new'], 1)})
+    if 'patch' in m:
+        with open(m['patch']) as fh:
+            texts = apply_unified_diff(tree, fh.read())
+        if texts is None:
+            return (m['id'], 'skipped', 'patch no longer applies')
+        ov = tree.with_overlay(texts)
+    else:
+        try:
+            txt = tree.text(m['file'])
+        except AnalysisError:
+            return (m['id'], 'skipped', 'file missing')
+        if txt.count(m['old']) < 1:
+            return (m['id'], 'skipped', 'anchor text not present')
+        ov = tree.with_overlay({m['file']: txt.replace(m['old'], m['new'], 1)})
     try:
         ctx, _ = run_rules(prop, load_prop(prop).RULES, Model(ov), 'thorough')
     except AnalysisError as exc:
@@ -49,7 +121,7 @@ def run(prop, seed=0, jobs=16, base_keys=None):
     from .check import load_prop
     from .model import Model
     from .report import run_rules
-    ms = load_mutants(prop)
+    ms = load_mutants(prop) + seeded(prop)
     random.Random(seed).shuffle(ms)
     if base_keys is None:
         ctx, _ = run_rules(prop, load_prop(prop).RULES, Model(SourceTree()), 'thorough')
